@@ -535,7 +535,7 @@ fn one(
     let mask = |x: i64| if matches!(c.flavour, Flavour::Boolean(_)) { x & 0xff } else { x };
     let behav_ok = got.iter().all(|&g| mask(g) == expect as i64);
     // --- structural oracle
-    let reader = x86::live_reader();
+    let reader = live_reader();
     let want = if matches!(c.flavour, Flavour::Boolean(_)) { usize::MAX } else { fake_addr_seen };
     let in_binary_unknown = want == 0;
     let me = rust_fake_a as usize;
